@@ -84,7 +84,7 @@ type tyE struct {
 
 func (t tyE) Src() string {
 	switch t.K {
-	case "number", "string", "name", "any":
+	case "number", "string", "name", "any", "time", "duration":
 		return "/" + t.K
 	case "prefix":
 		return t.Name
@@ -134,8 +134,15 @@ func genTy(r *simrt.Run, depth int) tyE {
 		ns := c11Names[p]
 		return tyE{K: "singleton", Name: ns[r.Choose(len(ns), "c11.ty.sname")]}
 	case 6:
-		if r.OneIn(3, "c11.ty.any") {
+		switch r.Choose(6, "c11.ty.any") {
+		case 5:
 			return tyE{K: "any"}
+		case 4:
+			return tyE{K: "any"}
+		case 3:
+			return tyE{K: "time"}
+		case 2:
+			return tyE{K: "duration"}
 		}
 		return tyE{K: "number"}
 	case 7:
@@ -160,6 +167,10 @@ func genValOf(r *simrt.Run, t tyE) Val {
 		return IntV(int64(1 + r.Choose(4, "c11.v.num")))
 	case "string":
 		return StrV([]string{"s", "t", ""}[r.Choose(3, "c11.v.str")])
+	case "time":
+		return Val{K: VTime, N: int64(5 + r.Choose(3, "c11.v.time"))}
+	case "duration":
+		return Val{K: VDur, N: int64(7 + r.Choose(3, "c11.v.dur"))}
 	case "name":
 		all := append([]string{}, c11Loose...)
 		for _, p := range c11Prefixes {
@@ -211,7 +222,14 @@ func sibling(r *simrt.Run, t tyE) tyE {
 		return tyE{K: "string"}
 	case "string":
 		return tyE{K: "number"}
+	case "time":
+		return []tyE{{K: "name"}, {K: "duration"}, {K: "number"}}[r.Choose(3, "c11.sib.time")]
+	case "duration":
+		return []tyE{{K: "name"}, {K: "time"}, {K: "number"}}[r.Choose(3, "c11.sib.dur")]
 	case "name":
+		if r.OneIn(4, "c11.sib.name") {
+			return tyE{K: "time"}
+		}
 		return tyE{K: "prefix", Name: "/fruit"}
 	case "any":
 		return tyE{K: "name"}
